@@ -669,6 +669,7 @@ async fn run_account(world: &mut World, acc: &mut Acc, rng: &mut Rng, id: u64, a
 
 pub fn run(args: Args) {
     let args = crate::sim::args_from_replay(args);
+    crate::sim::watchdog(&args, if args.tier == kvcore::Tier::Thorough { 2700 } else { 600 });
     let mut run = Run::new(
         args.clone(),
         "exploration",
